@@ -6,6 +6,7 @@ import (
 	"go/types"
 	"sort"
 	"strings"
+	"sync"
 	"time"
 
 	"golang.org/x/tools/go/ssa"
@@ -103,10 +104,51 @@ type Exec struct {
 	lenient   bool
 	InitNotes []string
 	initSteps int
+	mu        sync.Mutex
+	cond      *sync.Cond
+	active    int
+	nworkers  int
+	mkSolver  func() *smt.Solver
+	stopped   bool
+	aggStats  *smt.Stats
 }
 
 // SetSolver installs the solver used for feasibility and obligations.
 func (ex *Exec) SetSolver(s *smt.Solver) { ex.solver = s }
+
+// SetSolverFactory makes the exploration parallel: n workers, each with a
+// solver of its own from mk. Interpretation is serialised by ex.mu (held
+// except while a worker waits for its solver), so the term table and the
+// result need no further locking.
+func (ex *Exec) SetSolverFactory(n int, mk func() *smt.Solver) {
+	ex.nworkers = n
+	ex.mkSolver = mk
+}
+
+// SolverTokens bounds the number of solver processes working at once in the
+// whole process.
+var SolverTokens = make(chan struct{}, 15)
+
+type worker struct {
+	solver *smt.Solver
+}
+
+// query runs one solver call with the interpreter lock released.
+func (ex *Exec) query(st *State, as []*smt.Term, want []*smt.Term) (smt.Result, map[*smt.Term]uint64) {
+	sv := ex.solver
+	if st.w != nil {
+		sv = st.w.solver
+	}
+	if ex.nworkers > 1 {
+		ex.mu.Unlock()
+		SolverTokens <- struct{}{}
+		r, m := sv.Check(as, want)
+		<-SolverTokens
+		ex.mu.Lock()
+		return r, m
+	}
+	return sv.Check(as, want)
+}
 func (ex *Exec) Ctx() *smt.Ctx          { return ex.ctx }
 
 func NewExec(p *Program, cfg Config) *Exec {
@@ -214,7 +256,7 @@ func (ex *Exec) sat(st *State, extra ...*smt.Term) smt.Result {
 	if allIn {
 		return smt.Sat // the state itself is feasible by construction
 	}
-	r, _ := ex.solver.Check(as, nil)
+	r, _ := ex.query(st, as, nil)
 	return r
 }
 
@@ -229,7 +271,7 @@ func (ex *Exec) model(st *State, extra ...*smt.Term) (smt.Result, []TapeValue) {
 	if ex.cfg.Concrete {
 		return smt.Sat, ex.tapeOf(st, nil)
 	}
-	r, m := ex.solver.Check(as, want)
+	r, m := ex.query(st, as, want)
 	if r != smt.Sat {
 		return r, nil
 	}
@@ -328,7 +370,7 @@ func (ex *Exec) concretize(st *State, t *smt.Term, what string) (uint64, error) 
 	extra := []*smt.Term{}
 	for {
 		as := append(append([]*smt.Term(nil), st.pc...), extra...)
-		r, m := ex.solver.Check(as, []*smt.Term{t})
+		r, m := ex.query(st, as, []*smt.Term{t})
 		if r == smt.Unknown {
 			ex.incomplete(st, "INCONCLUSIVE concretize "+what)
 			break
@@ -364,7 +406,12 @@ func (ex *Exec) concretize(st *State, t *smt.Term, what string) (uint64, error) 
 
 var errDead = fmt.Errorf("dead path")
 
-func (ex *Exec) push(st *State) { ex.work = append(ex.work, st) }
+func (ex *Exec) push(st *State) {
+	ex.work = append(ex.work, st)
+	if ex.cond != nil {
+		ex.cond.Signal()
+	}
+}
 
 // pickAlt chooses among guarded alternatives, forking for the others. key
 // identifies the choice for re-execution.
@@ -569,33 +616,117 @@ func (ex *Exec) RunHarness(fn *ssa.Function) *Result {
 	ex.work = []*State{st}
 	ex.explore()
 	ex.res.Wall = time.Since(t0)
-	if ex.solver != nil {
+	if ex.aggStats != nil {
+		ex.res.Solver = *ex.aggStats
+	} else if ex.solver != nil {
 		ex.res.Solver = ex.solver.Stats
 	}
 	return ex.res
 }
 
 func (ex *Exec) explore() {
-	for len(ex.work) > 0 {
-		st := ex.work[len(ex.work)-1]
-		ex.work = ex.work[:len(ex.work)-1]
-		if !ex.cfg.Deadline.IsZero() && time.Now().After(ex.cfg.Deadline) {
-			ex.incomplete(st, fmt.Sprintf("INCOMPLETE: deadline reached with %d states pending", len(ex.work)+1))
-			ex.work = nil
-			return
+	if ex.nworkers <= 1 || ex.mkSolver == nil || ex.cfg.Concrete {
+		ex.nworkers = 1
+		for len(ex.work) > 0 {
+			st := ex.work[len(ex.work)-1]
+			ex.work = ex.work[:len(ex.work)-1]
+			if ex.limits(st) {
+				return
+			}
+			ex.runState(st)
 		}
-		if ex.nstates > ex.cfg.MaxStates {
-			ex.incomplete(st, fmt.Sprintf("INCOMPLETE: more than %d states", ex.cfg.MaxStates))
-			ex.work = nil
-			return
-		}
-		if len(ex.res.Violations) >= ex.cfg.MaxViolation {
-			ex.incomplete(st, fmt.Sprintf("stopped after %d violations with %d states pending", len(ex.res.Violations), len(ex.work)+1))
-			ex.work = nil
-			return
-		}
-		ex.runState(st)
+		return
 	}
+	ex.cond = sync.NewCond(&ex.mu)
+	var wg sync.WaitGroup
+	var all []*worker
+	for i := 0; i < ex.nworkers; i++ {
+		w := &worker{solver: ex.mkSolver()}
+		all = append(all, w)
+		wg.Add(1)
+		go func() {
+			defer wg.Done()
+			ex.mu.Lock()
+			defer ex.mu.Unlock()
+			defer func() {
+				if r := recover(); r != nil {
+					ex.incomplete(nil, fmt.Sprintf("ENGINE: worker panic: %v", r))
+					ex.stopped = true
+					ex.work = nil
+					ex.cond.Broadcast()
+				}
+			}()
+			for {
+				for len(ex.work) == 0 && ex.active > 0 && !ex.stopped {
+					ex.cond.Wait()
+				}
+				if len(ex.work) == 0 || ex.stopped {
+					ex.cond.Broadcast()
+					return
+				}
+				st := ex.work[len(ex.work)-1]
+				ex.work = ex.work[:len(ex.work)-1]
+				if ex.limits(st) {
+					ex.stopped = true
+					ex.cond.Broadcast()
+					return
+				}
+				ex.active++
+				st.w = w
+				ex.runState(st)
+				ex.active--
+				ex.cond.Broadcast()
+			}
+		}()
+	}
+	wg.Wait()
+	// aggregate solver statistics
+	agg := smt.Stats{PerBE: map[string]*smt.BEStats{}}
+	for _, w := range all {
+		ws := w.solver.Stats
+		agg.Queries += ws.Queries
+		agg.Sat += ws.Sat
+		agg.Unsat += ws.Unsat
+		agg.Unknown += ws.Unknown
+		agg.CacheHits += ws.CacheHits
+		agg.Errors += ws.Errors
+		agg.Time += ws.Time
+		agg.Restarts += ws.Restarts
+		agg.CrossOK += ws.CrossOK
+		agg.CrossBad += ws.CrossBad
+		for n, b := range ws.PerBE {
+			a := agg.PerBE[n]
+			if a == nil {
+				a = &smt.BEStats{}
+				agg.PerBE[n] = a
+			}
+			a.Queries += b.Queries
+			a.Time += b.Time
+			a.Unknown += b.Unknown
+		}
+		w.solver.Close()
+	}
+	ex.aggStats = &agg
+}
+
+// limits reports (and records) that a global bound stops the exploration.
+func (ex *Exec) limits(st *State) bool {
+	if !ex.cfg.Deadline.IsZero() && time.Now().After(ex.cfg.Deadline) {
+		ex.incomplete(st, fmt.Sprintf("INCOMPLETE: deadline reached with %d states pending", len(ex.work)+1))
+		ex.work = nil
+		return true
+	}
+	if ex.nstates > ex.cfg.MaxStates {
+		ex.incomplete(st, fmt.Sprintf("INCOMPLETE: more than %d states", ex.cfg.MaxStates))
+		ex.work = nil
+		return true
+	}
+	if len(ex.res.Violations) >= ex.cfg.MaxViolation {
+		ex.incomplete(st, fmt.Sprintf("stopped after %d violations with %d states pending", len(ex.res.Violations), len(ex.work)+1))
+		ex.work = nil
+		return true
+	}
+	return false
 }
 
 func (ex *Exec) runState(st *State) {
